@@ -3,6 +3,7 @@ package samlsim
 import (
 	"bytes"
 	"crypto/rsa"
+	"crypto/sha1"
 	"crypto/sha256"
 	"encoding/base64"
 	"fmt"
@@ -67,6 +68,57 @@ type c01Knobs struct {
 	// Lapsed: every certificate the IdP has ever published (keys 0 and 3) lapsed before the simulated clock starts. Nothing such an
 	// IdP signs has to be accepted; what nobody trusted signed must not be, as always
 	Lapsed bool `json:"idp_certificates_all_lapsed,omitempty"`
+	// FPWritten (fingerprint trust only): how the operator wrote the fingerprint of key 0's certificate into the configuration - ""
+	// is the notation the library itself prints (upper-case octets joined by colons); the others (c01FPStyles) are what certificate
+	// viewers and command line tools show, or slips of the hand. Whatever the library makes of such a string, it denotes the
+	// certificate of key 0 or no certificate at all: what key 0 signed MAY then be refused, what nobody trusted signed must be
+	FPWritten string `json:"fingerprint_written_as,omitempty"`
+}
+
+// c01FPStyles: the ways a fingerprint gets written other than in the library's own notation
+var c01FPStyles = []string{"lower-case", "no-colons", "lower-case-spaces", "openssl-output-line", "openssl-output-line-newline",
+	"algorithm-prefix", "left-to-right-mark-spaces", "empty", "odd-length-truncated", "first-20-octets", "sha1-of-certificate", "0x-prefix",
+	"trailing-colon", "equals-sign-only"}
+
+// c01WriteFingerprint renders the fingerprint of kp's certificate the way the plan says the operator wrote it.
+func c01WriteFingerprint(kp KeyPair, style string) string {
+	canon := c01Fingerprint(kp)
+	switch style {
+	case "lower-case":
+		return strings.ToLower(canon)
+	case "no-colons":
+		return strings.ReplaceAll(canon, ":", "")
+	case "lower-case-spaces":
+		return strings.ToLower(strings.ReplaceAll(canon, ":", " "))
+	case "openssl-output-line":
+		return "sha256 Fingerprint=" + canon
+	case "openssl-output-line-newline":
+		return "SHA256 Fingerprint=" + canon + "\n"
+	case "algorithm-prefix":
+		return "sha256:" + strings.ToLower(strings.ReplaceAll(canon, ":", ""))
+	case "left-to-right-mark-spaces":
+		return "\u200e" + strings.ToLower(strings.ReplaceAll(canon, ":", " "))
+	case "empty":
+		return ""
+	case "odd-length-truncated":
+		return canon[:len(canon)-1]
+	case "first-20-octets":
+		return canon[:20*3-1]
+	case "sha1-of-certificate":
+		sum := sha1.Sum(kp.Cert.Raw)
+		parts := make([]string, len(sum))
+		for i, b := range sum {
+			parts[i] = fmt.Sprintf("%02X", b)
+		}
+		return strings.Join(parts, ":")
+	case "0x-prefix":
+		return "0x" + strings.ReplaceAll(canon, ":", "")
+	case "trailing-colon":
+		return canon + ":"
+	case "equals-sign-only":
+		return "=" + canon
+	}
+	return canon
 }
 
 type c01Op struct {
@@ -78,6 +130,12 @@ type c01Op struct {
 	Field   string `json:"field,omitempty"`
 	Key     int    `json:"key,omitempty"` // Mallory's signing key: 2 (own) or 4 (the encryption-use key of the metadata); 0: unsigned
 	Mode    string `json:"mode,omitempty"`
+	// Decoy (resign, forge-sibling with a key): before Mallory signs the element she puts into it, as content of her own, an element
+	// whose local name is Signature but which is not an XML-DSig Signature, holding KeyInfo/X509Data/X509Certificate with the
+	// certificate the SP trusts (it is public). 0: none; else 1 + 3*position + namespace: position 0 first child, 1 after the Issuer
+	// and before her real signature, 2 last child; namespace 0 a foreign one (prefix x), 1 the SAML assertion namespace, 2 a
+	// foreign one bound to the prefix ds
+	Decoy int `json:"decoy_signature_element,omitempty"`
 }
 
 type c01Step struct {
@@ -98,6 +156,11 @@ type c01Step struct {
 	// Nothing obliges the SP to accept them; what Mallory forges next to them is written to be current in every such respect, so
 	// that the signature is all that stands between her assertion and acceptance
 	Spent string `json:"genuine_assertions_spent,omitempty"`
+	// IdPKeyInfo: what the IdP's own signatures say about their key: "" the certificate (X509Data), "none" nothing at all (no KeyInfo,
+	// as IdPs do whose partners know the certificate from metadata), "key-value" the bare public key. An SP that knows the
+	// certificates (metadata, pinned) can check such signatures, by trying each; one that knows a fingerprint only has nothing to
+	// compare it with. Either MAY refuse; in no case does a signature that names no certificate widen what is trusted
+	IdPKeyInfo string `json:"idp_signatures_name,omitempty"`
 }
 
 // c01RootKeys: keys that are a trusted signing root in some configuration of a run
@@ -144,7 +207,28 @@ func c01GenOp(g *Rng, st *c01Step, k c01Knobs) c01Op {
 		return Pick(g, "same", "same", "edited", "fresh", "fresh", "fresh-Id", "fresh-id", "fresh-nsID")
 	}
 	fld := func() string { return Pick(g, "nameid", "nameid", "attr", "issuer", "audience") }
-	switch g.PickW(8, 8, 9, 3, 12, 10, 7, 10, 8, 5, 9, 9, 8, 4, 5, 4, 6) {
+	decoy := func(key int) int {
+		if key != 0 && g.Bool(0.35) {
+			return 1 + g.Intn(9)
+		}
+		return 0
+	}
+	weights := []int{8, 8, 9, 3, 12, 10, 7, 10, 8, 5, 9, 9, 8, 4, 5, 4, 6, 11}
+	if strings.HasPrefix(k.Trust, "fingerprint") {
+		// known by fingerprint, the SP takes the root certificate from the message: what the KeyInfo says, and who signed, matters most
+		weights[7] += 4
+		weights[8] += 10
+	}
+	switch g.PickW(weights...) {
+	case 17:
+		// content in clear inside a Signature element of the message, outside SignedInfo: the enveloped-signature transform takes
+		// the whole Signature out before digesting, so every signature stands; nothing in there was signed by anybody
+		op := c01Op{Op: "plant-in-signature", Target: Pick(g, asrt(), asrt(), asrt(), anyT())}
+		op.Variant = g.PickW(6, 2, 2)                                                                                                                // directly in the Signature | in a ds:Object | in the ds:KeyInfo
+		op.Mode = Pick(g, "", "after-empty-nested-signature", "after-empty-nested-signature", "after-empty-nested-signature", "in-nested-signature") // what precedes / surrounds it
+		op.Pos = Pick(g, "", "", "signature-moved-last")                                                                                             // where the unit's Signature stands among its children is not signed either
+		op.Field = Pick(g, "subject", "attrs", "all", "all")
+		return op
 	case 16:
 		if g.Bool(0.4) {
 			return c01Op{Op: "plant-encrypted", Target: asrt(), Variant: g.Intn(4)}
@@ -159,13 +243,17 @@ func c01GenOp(g *Rng, st *c01Step, k c01Knobs) c01Op {
 	case 3:
 		return c01Op{Op: "cdata", Target: asrt(), Field: fld(), Variant: g.Intn(12)}
 	case 4:
-		return c01Op{Op: "forge-sibling", Target: asrt(), Pos: Pick(g, "before", "before", "after", "first", "last"), IDMode: idm(), Key: Pick(g, 0, 0, 0, mkey())}
+		op := c01Op{Op: "forge-sibling", Target: asrt(), Pos: Pick(g, "before", "before", "after", "first", "last"), IDMode: idm(), Key: Pick(g, 0, 0, 0, mkey())}
+		op.Decoy = decoy(op.Key)
+		return op
 	case 5:
 		return c01Op{Op: "move-genuine", Target: asrt(), Mode: Pick(g, "move", "copy"), Pos: Pick(g, "ext", "wrapper", "object", "forged-child", "advice", "status-detail")}
 	case 6:
 		return c01Op{Op: "wrap-response", Variant: g.Intn(5), IDMode: idm()}
 	case 7:
-		return c01Op{Op: "resign", Target: Pick(g, anyT(), anyT(), "F"), Key: mkey(), Variant: g.PickW(6, 2, 3, 2, 1, 2)}
+		op := c01Op{Op: "resign", Target: Pick(g, anyT(), anyT(), "F"), Key: mkey(), Variant: g.PickW(6, 2, 3, 2, 1, 2)}
+		op.Decoy = decoy(op.Key)
+		return op
 	case 8:
 		return c01Op{Op: "keyinfo", Target: anyT(), Variant: g.Intn(9)}
 	case 9:
@@ -194,6 +282,9 @@ func genTamper(g *Rng, tier string) *Plan {
 	k.Verifier = g.Bool(0.12)
 	k.SKITwin = g.Bool(0.15)
 	k.Lapsed = !k.SKITwin && g.Bool(0.1)
+	if strings.HasPrefix(k.Trust, "fingerprint") && g.Bool(0.4) {
+		k.FPWritten = Pick(g, c01FPStyles...)
+	}
 	p := &Plan{Knobs: mustJSON(k)}
 	n := 1 + g.PickW(5, 3, 2)
 	rotateAt, cur := -1, k.Trust
@@ -275,6 +366,9 @@ func genTamper(g *Rng, tier string) *Plan {
 		st.InheritNS = g.Bool(0.2)
 		st.EncID = g.Bool(0.12)
 		st.Prefix = g.PickW(6, 2, 2)
+		if g.Bool(0.15) {
+			st.IdPKeyInfo = Pick(g, "none", "none", "key-value")
+		}
 		nops := g.PickW(20, 35, 30, 15)
 		if st.Base == "untrusted" {
 			nops = g.PickW(60, 30, 10)
@@ -613,6 +707,14 @@ func (w *c01World) issue(st *c01Step, si int, t0 time.Time) *c01Msg {
 		r.Issuer = &saml.Issuer{Format: "urn:oasis:names:tc:SAML:2.0:nameid-format:entity", Value: *s.Issuer}
 	}
 	el := r.Element()
+	bare := func(signed *etree.Element, key int) {
+		if st.IdPKeyInfo == "" {
+			return
+		}
+		for _, sg := range c01Sigs(signed) {
+			c01KeyInfoEdit(sg, c01If(st.IdPKeyInfo == "key-value", 1, 0), key)
+		}
+	}
 	for i := range s.Assertions {
 		a := &s.Assertions[i]
 		ael := a.toAssertion(t0).Element()
@@ -630,6 +732,7 @@ func (w *c01World) issue(st *c01Step, si int, t0 time.Time) *c01Msg {
 		c01Restyle(ael, st.Prefix)
 		if a.Sign {
 			ael = placeSignature(signEnveloped(rsaKeys[a.SignKey], "", ael))
+			bare(ael, a.SignKey)
 		}
 		if a.Encrypt {
 			pt := c01Reparse(ael)
@@ -648,6 +751,7 @@ func (w *c01World) issue(st *c01Step, si int, t0 time.Time) *c01Msg {
 	}
 	if s.Sign {
 		el = placeSignature(signEnveloped(rsaKeys[s.SignKey], "", el))
+		bare(el, s.SignKey)
 	}
 	var body []byte
 	if st.Entry == "artifact" {
@@ -666,6 +770,9 @@ func (w *c01World) issue(st *c01Step, si int, t0 time.Time) *c01Msg {
 	if st.Entry == "artifact" {
 		m.ar = c01ChildByTag(c01ChildByTag(m.doc.Root(), "Body"), "ArtifactResponse")
 		m.vis = c01ChildByTag(m.ar, "Response")
+		if st.ArtSign && m.ar != nil {
+			bare(m.ar, st.ArtKey)
+		}
 	} else {
 		m.vis = m.doc.Root()
 	}
@@ -921,8 +1028,8 @@ func (m *c01Msg) forge(base int, idMode string) *etree.Element {
 	return el
 }
 
-// c01TrySign signs a detached copy of el (existing signatures removed) with one of Mallory's keys.
-func c01TrySign(el *etree.Element, key int) (out *etree.Element) {
+// c01TrySign signs a detached copy of el (existing signatures removed) with one of Mallory's keys. decoy: see c01Op.Decoy.
+func c01TrySign(el *etree.Element, key int, decoy ...int) (out *etree.Element) {
 	defer func() {
 		if recover() != nil {
 			out = nil
@@ -936,7 +1043,55 @@ func c01TrySign(el *etree.Element, key int) (out *etree.Element) {
 	for _, s := range c01Sigs(c) {
 		c.RemoveChild(s)
 	}
-	return placeSignature(signEnveloped(rsaKeys[key], "", c))
+	dv := 0
+	if len(decoy) > 0 && decoy[0] > 0 {
+		dv = decoy[0]
+		d := c01DecoySignature((dv - 1) % 3)
+		switch ((dv - 1) / 3) % 3 {
+		case 0:
+			c.InsertChildAt(0, d)
+		case 1:
+			idx := 0
+			if is := c01ChildByTag(c, "Issuer"); is != nil {
+				idx = is.Index() + 1
+			}
+			c.InsertChildAt(idx, d)
+		default:
+			c.AddChild(d)
+		}
+	}
+	out = placeSignature(signEnveloped(rsaKeys[key], "", c))
+	if dv > 0 && ((dv-1)/3)%3 == 1 {
+		// her real signature follows the decoy (where a signature stands among the children is not signed content)
+		sigs := c01Sigs(out)
+		var d *etree.Element
+		for _, ch := range out.ChildElements() {
+			if ch.Tag == "Signature" && !c01IsDsig(ch, "Signature") {
+				d = ch
+			}
+		}
+		if len(sigs) == 1 && d != nil {
+			out.RemoveChild(sigs[0])
+			out.InsertChildAt(d.Index()+1, sigs[0])
+		}
+	}
+	return out
+}
+
+// c01DecoySignature builds an element with local name Signature that is not an XML-DSig Signature; in it, where a path that goes by
+// local names finds it, the certificate of key 0 (public: it is in the IdP's metadata and in every message the IdP signs).
+func c01DecoySignature(ns int) *etree.Element {
+	pfx, uri := "x", c01EvilNS
+	switch ns {
+	case 1:
+		pfx, uri = "saml", c01AsrtNS
+	case 2:
+		pfx, uri = "ds", c01EvilNS
+	}
+	d := etree.NewElement(pfx + ":Signature")
+	d.CreateAttr("xmlns:"+pfx, uri)
+	d.CreateElement(pfx + ":KeyInfo").CreateElement(pfx + ":X509Data").CreateElement(pfx + ":X509Certificate").SetText(rsaKeys[0].CertB64())
+	return d
 }
 
 func c01CertEl(sig *etree.Element) *etree.Element {
@@ -1198,7 +1353,7 @@ func (m *c01Msg) apply(op c01Op) bool {
 	case "forge-sibling":
 		f := m.forge(ai, op.IDMode)
 		if op.Key == 2 || op.Key == 4 {
-			if s := c01TrySign(f, op.Key); s != nil {
+			if s := c01TrySign(f, op.Key, op.Decoy); s != nil {
 				m.forged[len(m.forged)-1] = s
 				f = s
 			}
@@ -1355,7 +1510,7 @@ func (m *c01Msg) apply(op c01Op) bool {
 		if t == nil || t.Tag == "EncryptedAssertion" || !m.inDoc(t) {
 			return false
 		}
-		s := c01TrySign(t, mk)
+		s := c01TrySign(t, mk, op.Decoy)
 		if s == nil {
 			return false
 		}
@@ -1530,6 +1685,99 @@ func (m *c01Msg) apply(op c01Op) bool {
 			}
 			return true
 		}
+
+	case "plant-in-signature":
+		// Mallory writes content in clear into a Signature element of the message, outside SignedInfo (the enveloped-signature
+		// transform removes the whole Signature element before the digest is taken: KeyInfo, Object and anything else in there is
+		// anybody's). Every signature stands; what she wrote was signed by nobody and must not come back
+		t := m.target(op.Target)
+		if t == nil || t.Tag == "EncryptedAssertion" || !m.inDoc(t) {
+			return false
+		}
+		sigs := c01Sigs(t)
+		if len(sigs) == 0 {
+			return false
+		}
+		sig := sigs[0]
+		pfx := sig.Space
+		dsEl := func(tag string) *etree.Element {
+			e := etree.NewElement(c01QN(pfx, tag))
+			if pfx != "" && c01Resolve(sig, pfx) != c01DsigNS {
+				e.CreateAttr("xmlns:"+pfx, c01DsigNS)
+			}
+			return e
+		}
+		var content []*etree.Element
+		if t.Tag == "Assertion" {
+			n := m.w.evil
+			m.w.evil++
+			evil := marker("evil", n)
+			sub := etree.NewElement("saml:Subject")
+			sub.CreateAttr("xmlns:saml", c01AsrtNS)
+			nid := sub.CreateElement("saml:NameID")
+			nid.CreateAttr("NameQualifier", "zQevilnqQz")
+			nid.SetText(evil)
+			sc := sub.CreateElement("saml:SubjectConfirmation")
+			sc.CreateAttr("Method", "urn:oasis:names:tc:SAML:2.0:cm:bearer")
+			scd := sc.CreateElement("saml:SubjectConfirmationData")
+			scd.CreateAttr("Recipient", spBase+"/saml/acs")
+			scd.CreateAttr("InResponseTo", c01ReqID)
+			scd.CreateAttr("NotOnOrAfter", m.t0.Add(2*time.Hour).UTC().Format("2006-01-02T15:04:05.999Z07:00"))
+			ats := etree.NewElement("saml:AttributeStatement")
+			ats.CreateAttr("xmlns:saml", c01AsrtNS)
+			at := ats.CreateElement("saml:Attribute")
+			at.CreateAttr("Name", "groups")
+			at.CreateElement("saml:AttributeValue").SetText("admin-" + evil)
+			cond := etree.NewElement("saml:Conditions")
+			cond.CreateAttr("xmlns:saml", c01AsrtNS)
+			cond.CreateAttr("NotOnOrAfter", m.t0.Add(48*time.Hour).UTC().Format("2006-01-02T15:04:05.999Z07:00"))
+			cond.CreateElement("saml:AudienceRestriction").CreateElement("saml:Audience").SetText(spBase + "/saml/metadata")
+			aus := etree.NewElement("saml:AuthnStatement")
+			aus.CreateAttr("xmlns:saml", c01AsrtNS)
+			aus.CreateAttr("AuthnInstant", m.t0.UTC().Format("2006-01-02T15:04:05.999Z07:00"))
+			aus.CreateAttr("SessionIndex", "si-evil")
+			switch op.Field {
+			case "subject":
+				content = []*etree.Element{sub}
+			case "attrs":
+				content = []*etree.Element{ats}
+			default:
+				content = []*etree.Element{sub, cond, aus, ats}
+			}
+		} else {
+			// a Response or ArtifactResponse signature: a whole assertion of hers
+			content = []*etree.Element{m.forge(ai, "fresh")}
+		}
+		if op.Pos == "signature-moved-last" {
+			t.RemoveChild(sig)
+			t.AddChild(sig)
+		}
+		var holder *etree.Element
+		switch op.Variant % 3 {
+		case 0:
+			holder = sig
+		case 1:
+			holder = dsEl("Object")
+			sig.AddChild(holder)
+		default:
+			holder = c01ChildByTag(sig, "KeyInfo")
+			if holder == nil {
+				holder = dsEl("KeyInfo")
+				sig.AddChild(holder)
+			}
+		}
+		switch op.Mode {
+		case "after-empty-nested-signature":
+			holder.AddChild(dsEl("Signature"))
+		case "in-nested-signature":
+			inner := dsEl("Signature")
+			holder.AddChild(inner)
+			holder = inner
+		}
+		for _, c := range content {
+			holder.AddChild(c)
+		}
+		return true
 
 	case "declare-unused-ns":
 		// exclusive canonicalisation leaves declarations nobody uses out of the signed octets: every signature stands, nothing the
@@ -1847,7 +2095,7 @@ func c01NewSP(k c01Knobs) *saml.ServiceProvider {
 		s := rsaKeys[0].CertB64()
 		spv.IDPCertificate = &s
 	case "fingerprint", "fingerprint-listed":
-		fp, algo := c01Fingerprint(rsaKeys[0]), c01FPAlgo
+		fp, algo := c01WriteFingerprint(rsaKeys[0], k.FPWritten), c01FPAlgo
 		spv.IDPCertificateFingerprint = &fp
 		spv.IDPCertificateFingerprintAlgorithm = &algo
 	}
@@ -1895,12 +2143,26 @@ func c01OpName(op c01Op) string {
 		if op.Key != 0 {
 			s += fmt.Sprintf("/k%d", op.Key)
 		}
+		if op.Decoy != 0 && op.Key != 0 {
+			s += fmt.Sprintf("/decoy%d", op.Decoy)
+		}
+	case "plant-in-signature":
+		s += fmt.Sprintf(":%s/v%d/%s", c01TargetClass(op.Target), op.Variant%3, op.Field)
+		if op.Mode != "" {
+			s += "/" + op.Mode
+		}
+		if op.Pos != "" {
+			s += "/" + op.Pos
+		}
 	case "move-genuine":
 		s += ":" + op.Mode + ">" + op.Pos
 	case "wrap-response":
 		s += fmt.Sprintf(":%d/%s", op.Variant, op.IDMode)
 	case "resign":
 		s += fmt.Sprintf(":%s/k%d/v%d", c01TargetClass(op.Target), op.Key, op.Variant)
+		if op.Decoy != 0 {
+			s += fmt.Sprintf("/decoy%d", op.Decoy)
+		}
 	case "keyinfo", "dup-sig":
 		s += fmt.Sprintf(":%s/v%d", c01TargetClass(op.Target), op.Variant)
 	case "strip-sig":
@@ -1942,6 +2204,12 @@ func execTamper(t *testing.T, p *Plan) *Result {
 		defer func() { rsaKeys[0], rsaKeys[2] = idp0, mal2 }()
 		res.probe("mallory-copied-subject-and-key-identifier")
 	}
+	if !strings.HasPrefix(k.Trust, "fingerprint") {
+		k.FPWritten = ""
+	}
+	if k.FPWritten != "" {
+		res.probe("fingerprint-written-as:" + k.FPWritten)
+	}
 	spv := c01NewSP(k)
 	w := &c01World{trust: k.Trust, blobs: map[string]*etree.Element{}}
 	start := time.Now()
@@ -1974,6 +2242,12 @@ func execTamper(t *testing.T, p *Plan) *Result {
 				fired = append(fired, name)
 				names = append(names, name)
 				res.fire("tamper:" + op.Op)
+				if op.Op == "plant-in-signature" {
+					res.probe("planted-in-signature:" + []string{"directly", "in-object", "in-keyinfo"}[op.Variant%3] + c01If(op.Mode != "", "/"+op.Mode, ""))
+				}
+				if op.Decoy != 0 && (op.Op == "resign" || (op.Op == "forge-sibling" && op.Key != 0)) {
+					res.probe("mallory-signed-with-decoy-signature-element:" + []string{"first", "before-real-signature", "last"}[((op.Decoy-1)/3)%3])
+				}
 			} else {
 				names = append(names, name+"(noop)")
 			}
@@ -2011,6 +2285,22 @@ func execTamper(t *testing.T, p *Plan) *Result {
 			if expect == "MUST_ACCEPT" {
 				expect = "MAY_REJECT" // honestly signed, and no longer (or never) of use to this SP for this request
 			}
+		}
+		if st.IdPKeyInfo != "" && (st.Spec.Sign || st.ArtSign || c01AnySigned(&st)) {
+			res.probe("idp-signatures-name-no-certificate:" + st.IdPKeyInfo)
+			if expect == "MUST_ACCEPT" {
+				// The statement is an "only if"; that untampered genuine messages are accepted is demanded only where the IdP names its
+				// certificate, to keep the check from being vacuous. An SP that knows the IdP by a fingerprint has nothing to compare
+				// with, one that trusts several certificates would have to try each: whether it does is left open
+				expect = "DONT_CARE"
+				res.dontcare("idp-signatures-name-no-certificate")
+			}
+		}
+		if expect == "MUST_ACCEPT" && k.FPWritten != "" {
+			// The statement is an "only if". A fingerprint that is not written the way the library writes fingerprints denotes the
+			// certificate of key 0 or nothing: whether the SP reads it as the former is left open, that it names no other key is not
+			expect = "DONT_CARE"
+			res.dontcare("fingerprint-not-in-library-notation")
 		}
 		if expect == "MUST_ACCEPT" && st.InheritNS && st.Prefix%3 == 1 && c01AnyPlain(&st) {
 			// The statement is an "only if"; acceptance of untampered genuine responses is required here only to keep
@@ -2136,10 +2426,22 @@ func execTamper(t *testing.T, p *Plan) *Result {
 			if expect == "DONT_CARE" {
 				res.probe("dont-care-region-rejected")
 			}
+			if st.IdPKeyInfo != "" && len(fired) == 0 && issuedCovered > 0 && st.Spent == "" {
+				res.probe("untampered-genuine-naming-no-certificate-rejected:" + c01If(len(c01TrustedKeys(k.Trust)) > 1, "several-trusted-certificates", "one-trusted-certificate"))
+			}
 		}
 	}
 	res.SimMillis = time.Since(start).Milliseconds()
 	return res
+}
+
+func c01AnySigned(st *c01Step) bool {
+	for _, a := range st.Spec.Assertions {
+		if a.Sign {
+			return true
+		}
+	}
+	return false
 }
 
 func c01AnyPlain(st *c01Step) bool {
@@ -2199,6 +2501,9 @@ func simplifyTamper(p *Plan) []*Plan {
 		if st.InheritNS {
 			mod(i, func(s *c01Step) bool { s.InheritNS = false; return true })
 		}
+		if st.IdPKeyInfo != "" {
+			mod(i, func(s *c01Step) bool { s.IdPKeyInfo = ""; return true })
+		}
 		if st.Prefix != 0 {
 			mod(i, func(s *c01Step) bool { s.Prefix = 0; return true })
 		}
@@ -2207,6 +2512,9 @@ func simplifyTamper(p *Plan) []*Plan {
 		}
 		for q, op := range st.Ops {
 			q := q
+			if op.Decoy != 0 {
+				mod(i, func(s *c01Step) bool { s.Ops[q].Decoy = 0; return true })
+			}
 			if op.Variant != 0 && (op.Op == "comment" || op.Op == "cdata") {
 				mod(i, func(s *c01Step) bool { s.Ops[q].Variant = 1; return s.Ops[q].Variant != op.Variant })
 			}
@@ -2217,6 +2525,13 @@ func simplifyTamper(p *Plan) []*Plan {
 		c := p.Clone()
 		k2 := k
 		k2.EncDecoy = false
+		c.Knobs = mustJSON(k2)
+		out = append(out, c)
+	}
+	if k.FPWritten != "" {
+		c := p.Clone()
+		k2 := k
+		k2.FPWritten = ""
 		c.Knobs = mustJSON(k2)
 		out = append(out, c)
 	}
@@ -2242,7 +2557,7 @@ func simplifyTamper(p *Plan) []*Plan {
 func init() {
 	register(&Profile{
 		ID: "C01", Name: "tamper", Level: "exploration",
-		Rule: "each run: one SP trust configuration (IdP metadata with 1-2 signing certs, use=signing or omitted, optionally a distinct use=encryption cert whose private key Mallory holds; pinned certificate; certificate fingerprint) and 1-3 deliveries. Each delivery: a foreign-IdP response (1-2 assertions) in a signing layout {Response, Assertion, both, neither} x plaintext/encrypted x {xml, post, artifact (ArtifactResponse signed/unsigned)} x own/inherited namespace declarations, or a whole message signed only by a key that is not a trusted signing root; Mallory applies 0-3 operators of the tampering grammar (strip/duplicate/transplant signatures, edit or remove signed fields, comment/CDATA injection, forged siblings with same/edited/fresh/variant IDs, moving or copying signed elements into Extensions/Object/Advice/StatusDetail/wrappers/forged parents, forged enclosing or sibling Responses, re-signing with her own or the encryption-use key with KeyInfo variants, KeyInfo edits, namespace prefix rebinding and default-namespace tricks, encryption of forged/genuine/captured assertions to the SP certificate, DOCTYPE/prolog tricks, splicing fragments captured earlier in the run). Non-trivial = at least one operator changed the message, or the signer is untrusted, or the layout carries no trusted signature; distinct = distinct abstract event log (entry, trust, layout, operators with variants, covered set, expectation, outcome).",
+		Rule: "each run: one SP trust configuration (IdP metadata with 1-2 signing certs, use=signing or omitted, optionally a distinct use=encryption cert whose private key Mallory holds; pinned certificate; certificate fingerprint) and 1-3 deliveries. Each delivery: a foreign-IdP response (1-2 assertions) in a signing layout {Response, Assertion, both, neither} x plaintext/encrypted x {xml, post, artifact (ArtifactResponse signed/unsigned)} x own/inherited namespace declarations, or a whole message signed only by a key that is not a trusted signing root; Mallory applies 0-3 operators of the tampering grammar (strip/duplicate/transplant signatures, edit or remove signed fields, comment/CDATA injection, forged siblings with same/edited/fresh/variant IDs, moving or copying signed elements into Extensions/Object/Advice/StatusDetail/wrappers/forged parents, forged enclosing or sibling Responses, re-signing with her own or the encryption-use key with KeyInfo variants, KeyInfo edits, namespace prefix rebinding and default-namespace tricks, encryption of forged/genuine/captured assertions to the SP certificate, DOCTYPE/prolog tricks, splicing fragments captured earlier in the run, content in clear planted inside a Signature element outside SignedInfo - directly, in an Object or in the KeyInfo, after an empty nested Signature or inside one, the Signature left in place or moved last -, Mallory-signed elements that carry a non-DSig element named Signature holding the trusted certificate); the IdP's own signatures name their certificate, nothing at all, or the bare public key; under fingerprint trust the fingerprint may be written in a notation other than the library's (case, separators, a tool's output line, truncations, another digest, empty). Non-trivial = at least one operator changed the message, or the signer is untrusted, or the layout carries no trusted signature; distinct = distinct abstract event log (entry, trust, layout, operators with variants, covered set, expectation, outcome).",
 		Gen:  genTamper, Exec: execTamper, Simplify: simplifyTamper,
 		RunsQuick: 4000, RunsThorough: 400000,
 		Assumptions: []string{
